@@ -224,6 +224,17 @@ func (sw *SlidingWindow) Add(data any) {
 		}
 		sw.initialized = true
 	}
+	// An on-time event may precede the window anchored by the first event (it is
+	// within MaxOutOfOrderness of the newest one). Windows only ever advance, so
+	// move the anchor back to the slide-aligned start of that event; otherwise the
+	// intervals starting before the first event's are never emitted. No such
+	// interval can have fired: its end lies above the event's timestamp, which is
+	// not below the watermark.
+	if timeChar == types.EventTime && sw.currentSlot != nil && eventTime.Before(*sw.currentSlot.Start) &&
+		(sw.watermark == nil || !sw.watermark.IsEventTimeLate(eventTime)) {
+		sw.currentSlot = sw.createSlotFromStart(alignWindowStart(eventTime, sw.slide))
+	}
+
 	row := types.Row{
 		Data:      data,
 		Timestamp: eventTime,
